@@ -41,7 +41,9 @@ RangeOf(s) == {s[i] : i \in DOMAIN s}
 
 ---------------------------------------------------------------------------
 (* The remapper (C06), namespace 1 -> namespace 2 *)
-Ctx(M, sup) == [R |-> ClassTable(M, 1, 2), TF |-> MemberTables(M, "f", 1, 2), TM |-> MemberTables(M, "m", 1, 2), sup |-> sup]
+(* remapper_b(from, to): the mapping set may have more than two namespaces and `from` need not be the first one *)
+CtxFT(M, f, t, sup) == [R |-> ClassTable(M, f, t), TF |-> MemberTables(M, "f", f, t), TM |-> MemberTables(M, "m", f, t), sup |-> sup]
+Ctx(M, sup) == CtxFT(M, 1, 2, sup)
 
 IsArr(c) == Len(c) > 0 /\ Ch(c, 1) = "["
 IsMethodDesc(d) == Len(d) > 0 /\ Ch(d, 1) = "("
